@@ -49,7 +49,7 @@ from .._columns import (
 )
 from .._engine import Engine as BaseEngine
 from .._engine import GenericConcreteEngine
-from .._exceptions import EngineError
+from .._exceptions import ColumnError, EngineError
 from .._leaf_relation import LeafRelation
 from .._marker_relation import MarkerRelation
 from .._materialization import Materialization
@@ -131,8 +131,21 @@ class Engine(GenericConcreteEngine[Callable[..., Any]]):
                     return tree, commutator.done, commutator.messages
                 else:
                     upstream, done, messages = self.backtrack_unary(commutator.first, target, preferred)
-                    if upstream is not target or (done and commutator.second is not tree.operation):
-                        result = commutator.second._finish_apply(upstream)
+                    if done:
+                        if upstream is not target or commutator.second is not tree.operation:
+                            result = commutator.second._finish_apply(upstream)
+                        else:
+                            result = tree
+                    elif upstream is not target:
+                        # Only part of commutator.first was inserted upstream and
+                        # the rest is still to be applied downstream, so
+                        # commutator.second (which assumes all of it was) does
+                        # not apply; keep the partial insertion only if the
+                        # original operation can still be applied to it.
+                        try:
+                            result = tree.operation.apply(upstream)
+                        except ColumnError:
+                            result = tree
                     else:
                         result = tree
                     return (
